@@ -16,6 +16,9 @@ for sid in sorted(os.listdir(os.path.join(V, "seeded"))):
     outs = []
     for p, c in (r.get("checks") or {}).items():
         outs.append("%s: %s" % (p, c.get("result")))
+    if meta.get("no_longer_breaks"):
+        rows.append("| %s | %s | %s | %s |" % (sid, meta.get("property"), (meta.get("title") or "")[:150].replace("|", "/"), "no longer breaks the property: " + meta["no_longer_breaks"][:160]))
+        continue
     n += 1
     if any("caught" in o for o in outs):
         caught += 1
